@@ -25,10 +25,10 @@ RULE = (
 ASSUMPTIONS = [
     "float64 reference of the documented formulas; relative tolerance 1e-4 for means and noise levels; for the post-burn-in std rule the admitted error on the variance is 16*eps32*(E[x^2] + 2|m_old E[x]| + m_old^2) (float32 cancellation on tau).",
     "LeaspyConvergenceError (variance below 1e-5) is the documented outcome for collapsed variances and ends the case as a rejected input.",
-    "Mixture kind: probabilities = mean responsibilities (sum to one within 1e-6) and the batched-update clause are checked; per-cluster mean/std rules are only checked for batch consistency.",
+    "Mixture kind: probabilities = mean responsibilities (sum to one within 1e-6) and the batched-update clause are checked; per-cluster means = responsibility-weighted means of the latent values of the pre-step state (responsibilities = softmax of minus the per-cluster regularity, floored at -100, of that state); per-cluster std rules are only checked for batch consistency.",
 ]
 REQUIRED_CLASSES = {"iter:burn-in": 300, "iter:first-with-memory": 30, "iter:later": 200, "noise:scalar-multivariate-partial-missing": 30,
-                    "noise:diagonal": 200, "nontrivial": 300}
+                    "noise:diagonal": 200, "nontrivial": 300, "mixture:cluster-means-judged:with-memory": 40, "mixture:outlier-state:floored": 100}
 
 EPS32 = 1.1920929e-07
 
@@ -71,6 +71,20 @@ def judge_iteration(model, dag, rec, classes):
             exp = T64(S[base]).mean(0)
             if not close(got, exp.reshape(got.shape)):
                 raise Fail("ind-mean-differs-from-average", f"{p} = {got.flatten()[:4].tolist()}", f"{exp.flatten()[:4].tolist()}")
+        elif p.endswith("_mean") and base in ind and mixture:
+            # per-cluster prior mean = responsibility-weighted mean of the individual latent values held in the pre-step state,
+            # the responsibilities being those of the same state (models/utilities.py; coincides with the statistic in force
+            # during the memory-less phase and at the first iteration with memory)
+            z = T64(rec["pre_state"][base])
+            nll = T64(rec["pre_state"]["nll_regul_ind_sum_ind"])
+            resp = torch.softmax(torch.clamp(-nll, min=-100.0), dim=1)  # (n_ind, n_clusters)
+            if z.ndim == 2 and z.shape[1] == 1 and got.ndim == 1:
+                exp = (resp * z).sum(0) / resp.sum(0)
+            else:  # sources: (n_ind, n_sources) -> (n_sources, n_clusters)
+                exp = (z.unsqueeze(-1) * resp.unsqueeze(1)).sum(0) / resp.sum(0)
+            classes.append("mixture:cluster-means-judged" + ("" if burn else ":with-memory"))
+            if exp.numel() != got.numel() or not close(got, exp.reshape(got.shape), rtol=1e-4, atol=1e-6):
+                raise Fail("mixture-cluster-mean-differs-from-responsibility-weighted-mean", f"{p} = {got.flatten()[:4].tolist()}", f"{exp.flatten()[:4].tolist()}")
         elif p.endswith("_std") and base in ind and not mixture:
             x = T64(S[base])
             if burn:
@@ -113,6 +127,8 @@ def judge_iteration(model, dag, rec, classes):
             exp = resp.mean(0)
             if not close(got, exp.reshape(got.shape), rtol=1e-4, atol=1e-6):
                 raise Fail("mixture-probabilities-differ-from-mean-responsibilities", got.tolist(), exp.tolist())
+    if mixture and "tau" in ind:
+        judge_outlier_state(dag, rec, classes)
     # batched update: each rule recomputed alone on a copy of the pre-step state must give the value that was assigned
     ps = rec["pre_state_obj"]
     for p, var in dag.sorted_variables_by_type[ModelParameter].items():
@@ -120,6 +136,39 @@ def judge_iteration(model, dag, rec, classes):
         if not same(post_raw(rec, p), exp) and not close(post_raw(rec, p), T64(exp).reshape(post_raw(rec, p).shape), rtol=0, atol=0):
             raise Fail("parameter-not-updated-from-pre-step-state", f"{p} = {post_raw(rec, p).flatten()[:4].tolist()}",
                        f"{T64(exp).flatten()[:4].tolist()} (rule evaluated on the pre-step state)")
+
+
+def judge_outlier_state(dag, rec, classes):
+    """Mixture rules evaluated on the pre-step state with ONE individual moved far from every cluster (a subject followed
+    decades before the others reaches such a state at the first iterations): responsibilities are the softmax of the per-cluster
+    log-densities floored at -100, so this subject is shared between the clusters relative to that floor."""
+    import torch
+
+    from leaspy.variables.specs import ModelParameter
+
+    ps2 = fresh_state(rec["pre_state_obj"])
+    shift = (-100.0, 90.0, -60.0)[rec["k"] % 3]
+    with ps2.auto_fork(None):
+        tau = ps2._values["tau"].clone()
+        tau[0] = tau[0] + shift
+        ps2["tau"] = tau
+    nll = T64(ps2["nll_regul_ind_sum_ind"])
+    resp = torch.softmax(torch.clamp(-nll, min=-100.0), dim=1)
+    floored = bool((-nll[0] < -100.0).any())
+    classes.append("mixture:outlier-state" + (":floored" if floored else ""))
+    params = dag.sorted_variables_by_type[ModelParameter]
+    for p in ("probs", "tau_mean", "xi_mean", "sources_mean"):
+        if p not in params:
+            continue
+        got = params[p].compute_update(state=ps2, suff_stats=rec["S_raw"], burn_in=rec["burn_in"])
+        if p == "probs":
+            exp = resp.mean(0)
+        else:
+            z = T64(ps2[p[:-5]])
+            exp = (resp * z).sum(0) / resp.sum(0) if (z.ndim == 2 and z.shape[1] == 1) else (z.unsqueeze(-1) * resp.unsqueeze(1)).sum(0) / resp.sum(0)
+        if exp.numel() != got.numel() or not close(got, exp.reshape(got.shape), rtol=1e-4, atol=1e-6):
+            raise Fail("mixture-rule-on-outlier-state-differs-from-floored-responsibilities:" + p, f"{p} = {T64(got).flatten()[:4].tolist()}",
+                       f"{exp.flatten()[:4].tolist()} (tau of individual 0 shifted by {shift})")
 
 
 def post_raw(rec, p):
